@@ -1,4 +1,4 @@
-import ParolModel.Proofs.KFirstCode
+import ParolModel.Proofs.KFollow
 /-! # C06 — FIRST_k and FOLLOW_k sets match their definitions
 
 Property text: *For every grammar parol accepts and every k up to the maximum lookahead, the FIRST_k
@@ -78,6 +78,22 @@ theorem first_k_eq_spec (G : Grammar) (fuel k : Nat) (V : FirstVec) (hk : 1 ≤ 
   obtain ⟨hwf, hfix⟩ := firstCode_fix hno k V h
   exact fixpoint_eq_spec hk hno hprod hnlr hwf hfix
 
+/-- **`follow_k` = definition**: *"the FOLLOW_k set computed for each non-terminal … equal[s] the
+    set defined by k-truncated concatenation over all derivations (end of input included in FOLLOW of
+    the start symbol)"* — for productive, reachable grammars without (hidden) left recursion and
+    every k ≥ 1, the faithful model of the public `follow_k` (Gauss–Seidel sweeps over fresh
+    accumulators, stopped when the position map repeats, first compared with the map of k − 1 — a
+    stop at that first comparison is covered) returns exactly the declarative FOLLOW_k for every
+    non-terminal. (k = 0 is excluded: there the code returns `[EOI]` for the start symbol, see the
+    check's K0-EOI observation.) -/
+theorem followK_eq_spec (G : Grammar) (fuel k : Nat) (r : List TSet × Env) (hk : 1 ≤ k)
+    (hno : NoEoi G) (hprod : Productive G) (hreach : Reachable G) (hnlr : NoLeftRec G)
+    (h : followCode G fuel k = some r) :
+    ∀ A t, t ∈ envGet r.2 A ↔ FollowK G k A t := by
+  intro A t
+  rw [followK_iff_ctx]
+  exact (followCode_ok hno hprod hreach hnlr k hk r h).acc A t
+
 /-- The hypothesis is needed: with hidden left recursion (`A: B A | ; B: | "b" "c";`, which parol
     rejects) the seeded iteration keeps stale tuples of the k = 1 seed at k = 2 and ends in a
     fixpoint that is NOT the least one. -/
@@ -104,5 +120,17 @@ example : (followCode ⟨0, [⟨0, [.n 1, .t 6]⟩, ⟨1, []⟩, ⟨1, [.t 5]⟩
 
 example : (followK_lfp ⟨0, [⟨0, [.n 1, .t 6]⟩, ⟨1, []⟩, ⟨1, [.t 5]⟩]⟩ 2 10).map (fun E => envGet E 1)
     = some [[6, 0]] := by decide
+
+/-- the class hypotheses are jointly satisfiable, and the end-to-end theorems apply: on
+    `S: A "b"; A: ; A: "a";` whatever `first_k` / `follow_k` return at k = 2 is the declarative set -/
+example (V : FirstVec) (h : firstCode Gex 50 2 = some V) (t : Tup) :
+    t ∈ envGet V.nts 0 ↔ FirstK Gex 2 [.n 0] t :=
+  (first_k_eq_spec Gex 50 2 V (by omega) gex_noEoi gex_productive gex_noLeftRec h).1 0 t
+
+example (r : List TSet × Env) (h : followCode Gex 50 2 = some r) (t : Tup) :
+    t ∈ envGet r.2 1 ↔ FollowK Gex 2 1 t :=
+  followK_eq_spec Gex 50 2 r (by omega) gex_noEoi gex_productive gex_reachable gex_noLeftRec h 1 t
+
+example : (firstCode Gex 50 2).isSome = true ∧ (followCode Gex 50 2).isSome = true := by decide
 
 end ParolModel.KS
